@@ -17,6 +17,7 @@ import CSD.Generated.Fields
 import CSD.Generated.Dispatch
 import CSD.Lemmas.PFCLoad
 import CSD.Lemmas.PFCMeta
+import CSD.Lemmas.RPDACImage
 
 namespace CSD.Props.C06
 open CSD.Generated
@@ -104,5 +105,20 @@ theorem models_match_source_text :
     Generated.body_PFC_load = SourceText.body_PFC_load ∧
     Generated.body_LogSequence_load = SourceText.body_LogSequence_load ∧
     Generated.body_LogSequence_save = SourceText.body_LogSequence_save := ⟨rfl, rfl, rfl, rfl⟩
+
+
+/-! ### RPDAC image -/
+
+/-- `StringDictionaryRPDAC::load (save d ++ rest) = (d, rest)` on bytes: type tag, counters, the grammar
+(`RePair::save(out, encoding)` / `RePair::load`: `maxchar`, `terminals`, `rules`, the rule table as a
+LogSequence image, the encoding tag) and the sequences as a DAC_VLS image with its BitSequenceRG bitmap — every
+field comes back and exactly the image is consumed, so images can follow one another in a stream. -/
+theorem rpdac_image_reloads (d : RPDACImg.Img) (wf : RPDACImg.WF d) (henc : d.rp.encoding = 3 ∨ d.rp.encoding = 124)
+    (rest : List UInt8) : RPDACImg.load 3 124 (RPDACImg.save 3 d ++ rest) = some (d, rest) :=
+  RPDACImg.load_save 3 124 (by decide) d wf henc rest
+
+/-- The RPDAC loader refuses every other type tag. -/
+theorem rpdac_loader_refuses_foreign (t : Nat) (ht : t < 2 ^ 32) (hne : t ≠ 3) (rest : List UInt8) :
+    RPDACImg.load 3 124 (LogSeq.leBytes t 4 ++ rest) = none := RPDACImg.load_foreign 3 124 t ht hne rest
 
 end CSD.Props.C06
